@@ -477,9 +477,10 @@ pub fn run_exchange(spec: &ExchangeSpec, start: Option<Flow<(), Prepare>>, strea
         if s.premature_budget > 0 && !complete && s.flag(10) {
             s.premature_budget -= 1;
             let can = sr.can_proceed();
-            let res = sr.proceed().map_err(|e| format!("premature SendRequest::proceed: {:?}", e))?;
-            if can || res.is_some() {
-                return Err(format!("SendRequest: advancing succeeded = {}, can_proceed() = {} with an incomplete head", res.is_some(), can));
+            // "not advanced" may be told as `Ok(None)` or as an error: the statement only ties success to the readiness query
+            let advanced = matches!(sr.proceed(), Ok(Some(_)));
+            if can || advanced {
+                return Err(format!("SendRequest: advancing succeeded = {}, can_proceed() = {} with an incomplete head", advanced, can));
             }
             return Ok(Outcome::Premature("SendRequest"));
         }
@@ -661,7 +662,13 @@ pub fn run_exchange(spec: &ExchangeSpec, start: Option<Flow<(), Prepare>>, strea
                 if buf.len() < ob {
                     buf.resize(ob, 0);
                 }
-                let (i, o) = sb.write(&rest[..take], &mut buf[..ob]).map_err(|e| format!("body write(in = {}, out = {}): {:?}", take, ob, e))?;
+                let (i, o) = match sb.write(&rest[..take], &mut buf[..ob]) {
+                    Ok(v) => v,
+                    // a chunked write into less than the smallest chunk (6 bytes) cannot make progress; whether that is told as
+                    // (0, 0) or as an output-overflow error is not stated (C19 starts at 6 bytes): no progress either way
+                    Err(ureq_proto::Error::OutputOverflow) if chunked && take > 0 && ob < 6 => (0, 0),
+                    Err(e) => return Err(format!("body write(in = {}, out = {}): {:?}", take, ob, e)),
+                };
                 if i > take || o > ob {
                     return Err(format!("body write counts out of range: ({}, {}) for (in = {}, out = {})", i, o, take, ob));
                 }
